@@ -25,6 +25,8 @@ pub mod c16;
 pub mod c18;
 #[cfg(feature = "full")]
 pub mod c17;
+#[cfg(feature = "full")]
+pub mod c19;
 pub mod c12;
 #[cfg(feature = "full")]
 pub mod common;
@@ -58,6 +60,8 @@ pub fn run(prop: &str, ctx: &Ctx) -> Option<Report> {
         "C18" => Some(c18::run(ctx)),
         #[cfg(feature = "full")]
         "C17" => Some(c17::run(ctx)),
+        #[cfg(feature = "full")]
+        "C19" => Some(c19::run(ctx)),
         "C12" => Some(c12::run(ctx)),
         _ => None,
     }
@@ -88,6 +92,8 @@ pub fn replay(prop: &str, ctx: &Ctx, case: &Value) -> ReplayResult {
         "C18" => c18::replay(ctx, case),
         #[cfg(feature = "full")]
         "C17" => c17::replay(ctx, case),
+        #[cfg(feature = "full")]
+        "C19" => c19::replay(ctx, case),
         "C12" => c12::replay(ctx, case),
         _ => Err(format!("no replay for property {}", prop)),
     }
